@@ -380,6 +380,54 @@ def shown_annotations(sources: List[str]) -> List[Tuple[str, bool]]:
     return out
 
 
+AUG = {"+": "+=", "-": "-=", "*": "*=", "/": "/=", "//": "//=", "%": "%=", "@": "@=", "**": "**=", "<<": "<<=", ">>": ">>=",
+       "|": "|=", "^": "^=", "&": "&="}
+
+
+class _CodeText:
+    """Text of the <code> elements of a piece of written HTML (tolerant reader: html.parser, entities decoded)."""
+
+    def __init__(self, markup: str):
+        from html.parser import HTMLParser
+        out: List[str] = []
+        depth = [0]
+
+        class P(HTMLParser):
+            def handle_starttag(self, tag: str, attrs: Any) -> None:
+                depth[0] += tag == "code"
+
+            def handle_endtag(self, tag: str) -> None:
+                depth[0] -= tag == "code"
+
+            def handle_data(self, data: str) -> None:
+                if depth[0]:
+                    out.append(data)
+        p = P(convert_charrefs=True)
+        p.feed(markup)
+        p.close()
+        self.text = "".join(out)
+
+
+def constant_pages(lines: List[str], names: List[str]) -> List[Tuple[str, str]]:
+    """Build ONE module from `lines` with the real builder and return, for each name, (kind, text of the value as
+    written into the 'Value' table of its page by epydoc2stan.format_constant_value, read back from the HTML)."""
+    from pydoctor import model, epydoc2stan
+    from pydoctor.stanutils import flatten
+    system = model.System()
+    system.options.verbosity = -3
+    builder = system.systemBuilder(system)
+    builder.addModuleString("from typing import TypeAlias\n" + "".join(ln + "\n" for ln in lines), modname="valmod")
+    builder.buildModules()
+    mod = system.allobjects["valmod"]
+    out = []
+    for nm in names:
+        attr = mod.contents.get(nm)
+        if attr is None or getattr(attr, "value", None) is None:
+            raise MachineryError(f"the builder kept no value for {nm}")
+        out.append((attr.kind.name if attr.kind else "?", _CodeText(flatten(epydoc2stan.format_constant_value(attr))).text))
+    return out
+
+
 def quoted_probe_fixed() -> bool:
     shown, complete = shown_annotations(['"a|b" & c'])[0]
     return same_expr(shown, ast.parse("(a|b) & c", mode="eval").body)[0]
@@ -387,9 +435,10 @@ def quoted_probe_fixed() -> bool:
 
 # ------------------------------------------------------------------------- string / bytes literals
 SYM = {"sq": "'", "dq": '"', "bs": "\\", "nl": "\n", "tab": "\t", "cr": "\r", "ff": "\f", "vt": "\v", "nul": "\0",
-       "esc": "\x1b", "soh": "\x01", "uni": "\xe9", "sur": "\ud800"}
+       "esc": "\x1b", "soh": "\x01", "uni": "\xe9", "sur": "\ud800", "nbsp": "\xa0", "ffff": "\uffff"}
 # quick alphabets; "1" and "b" are hexadecimal digits (what follows a \xNN escape matters), soh / esc / nul are C0 controls
-STR_ALPHABET = ["a", "b", "1", " ", "sq", "dq", "bs", "nl", "cr", "nul", "esc", "soh", "uni", "sur"]
+STR_ALPHABET = ["a", "b", "1", " ", "sq", "dq", "bs", "nl", "cr", "nul", "esc", "soh", "uni", "sur", "nbsp", "ffff"]
+FALLBACK_SYMBOLS = {"nbsp", "ffff"}
 STR_ALPHABET_MORE = ["tab", "ff", "vt", "&"]
 BYTES_ALPHABET = ["a", "1", " ", "sq", "dq", "bs", "nl", "tab", "cr", "nul", "esc", "uni"]
 C0_SYMBOLS = {"nul", "esc", "soh", "vt"}
@@ -405,10 +454,10 @@ def shown_html(e: Any, lbok: bool) -> str:
     """The value as it reaches the page: to_stan() (docutils HTML -> stanutils.html2stan), flattened to HTML, and the
     text of that HTML."""
     from pydoctor.epydoc.markup._pyval_repr import colorize_pyval
-    from pydoctor.stanutils import flatten, flatten_text, html2stan
+    from pydoctor.stanutils import flatten
     from pydoctor.test import NotFoundLinker
     d = colorize_pyval(e, linelen=0, maxlines=0, linebreakok=lbok)
-    return flatten_text(html2stan(flatten(d.to_stan(NotFoundLinker()))))
+    return _CodeText(flatten(d.to_stan(NotFoundLinker()))).text
 
 
 def shown_pyval(e: Any, linelen: int, maxlines: int, lbok: bool) -> Tuple[str, bool]:
@@ -445,7 +494,24 @@ def run_strings(ctx: Ctx, open_ids: List[str], fixed_ids: List[str], stats: Dict
     if len(r.printed) != r.distinct:
         raise MachineryError(f"ExprStr: {r.distinct} cases but {len(r.printed)} records")
     ctx.extra["string_design_level_invariants_violated"] = sorted(set(r.violated))
-    for rec in r.printed:
+
+    def wants_html(rec: Dict[str, Any]) -> bool:
+        # quick: every value up to 2 characters - a control character followed by a hex digit / another character /
+        # the end, alone or next to a character that sends the value down the fallback path; thorough: also every
+        # longer value containing a C0 control character
+        v = list(rec["val"])
+        if not rec["lbok"] and any(c in FALLBACK_SYMBOLS for c in v):
+            return False              # one-line presentation (parameter default): pydoctor shows (...) for the whole signature
+        return len(v) <= 2 or (not ctx.quick and len(v) <= 3 and any(c in C0_SYMBOLS for c in v))
+
+    def value_of(rec: Dict[str, Any]) -> Any:
+        t = sym_text(list(rec["val"]))
+        return t.encode("latin-1") if rec["by"] else t
+
+    # the page of a constant (line breaks allowed): one module with all the values, built by the real builder
+    paged = [i for i, rec in enumerate(r.printed) if rec["lbok"] and wants_html(rec)]
+    pages = dict(zip(paged, constant_pages([f"S{i} = {value_of(r.printed[i])!r}" for i in paged], [f"S{i}" for i in paged])))
+    for ri, rec in enumerate(r.printed):
         by, lbok = rec["by"], rec["lbok"]
         val_s = sym_text(list(rec["val"]))
         value: Any = val_s.encode("latin-1") if by else val_s
@@ -469,9 +535,7 @@ def run_strings(ctx: Ctx, open_ids: List[str], fixed_ids: List[str], stats: Dict
         classes = sorted(rec["cls"])
         # second observation point: the text of the HTML written for the value
         vsyms = list(rec["val"])
-        # (quick: every value up to 2 characters - a control character followed by a hex digit / another character /
-        # the end; thorough: also every longer value containing a C0 control character)
-        if ok and (len(vsyms) <= 2 or (not ctx.quick and len(vsyms) <= 3 and any(c in C0_SYMBOLS for c in vsyms))):
+        if ok and wants_html(rec):
             hmodel = sym_text(list(rec["html"]))
             hdec = rec["dech"]
             href: Any = _INVALID if list(hdec) == ["INVALID"] else (
@@ -479,7 +543,7 @@ def run_strings(ctx: Ctx, open_ids: List[str], fixed_ids: List[str], stats: Dict
             hpy = literal_value(hmodel)
             if not (hpy is href or (type(hpy) is type(href) and hpy == href)):
                 raise MachineryError(f"ExprStr.tla!PyDecode disagrees with ast.literal_eval on {hmodel!r}: {href!r} vs {hpy!r}")
-            hshown = shown_html(ast.Constant(value), lbok)
+            hshown = pages[ri][1] if ri in pages else shown_html(ast.Constant(value), lbok)
             stats["strings_html"] += 1
             hdrift = hshown != hmodel
             if hdrift:
@@ -522,7 +586,10 @@ def kf_literal(fid: str, open_ids: List[str]):
 LAYOUT_SOURCES = ["alpha", "12345678901234", "'hello world'", "'ab\\ncd'", "alpha+beta*gamma", "(alpha+beta)*gamma",
                   "[alpha, beta, 123]", "[alpha, [beta, 'x\\ny'], gamma]", "func(alpha, beta, key=value)",
                   "-(alpha and beta or gamma)", "(alpha, beta)", "f(k=(a+b)*c)", "[]", "f()",
-                  "[(aa+bb)*cc, 'it\\'s', f(x, y=[1, 2])]", "not (a or 'p\\nq')"]
+                  "[(aa+bb)*cc, 'it\\'s', f(x, y=[1, 2])]", "not (a or 'p\\nq')",
+                  # dict / set displays: one line first, one entry per line when that does not fit
+                  "{'alpha': 1, 'beta': [2, 3], 'gamma': 3}", "{'k': {'inner': aa+bb, 'other': 2}, **rest}",
+                  "f(d={'a': 1, **more, 'b': x or y})", "{1, 22, 333}", "{}"]
 # values whose astor rendering (comparison chain, conditional, lambda, comprehension) spans several lines: ONE _output
 # call then carries text with embedded newlines, and a non-last line may need wrapping
 LAYOUT_LONG_SOURCES = [
@@ -556,8 +623,13 @@ def layout_tree(e: ast.AST) -> Dict[str, Any]:
         return N("Bin", L_BIN[type(e.op)], [layout_tree(e.left), layout_tree(e.right)])
     if isinstance(e, ast.BoolOp):
         return N("Bool", "and" if isinstance(e.op, ast.And) else "or", [layout_tree(v) for v in e.values])
-    if isinstance(e, (ast.List, ast.Tuple)):
+    if isinstance(e, (ast.List, ast.Tuple, ast.Set)):
         return N(type(e).__name__, "", [layout_tree(v) for v in e.elts])
+    if isinstance(e, ast.Dict):
+        kids: List[Dict[str, Any]] = []
+        for k, v in zip(e.keys, e.values):
+            kids += [N("NoKey", "", []) if k is None else layout_tree(k), layout_tree(v)]
+        return N("Dict", "", kids)
     if isinstance(e, ast.Call):
         return N("Call", "", [layout_tree(e.func)] + [layout_tree(v) for v in e.args]
                  + [N("Kw", list(k.arg or ""), [layout_tree(k.value)]) for k in e.keywords])
@@ -593,8 +665,11 @@ def gen_layout_source(rng: random.Random, depth: int) -> str:
         return rng.choice([f"{name()} < {name()} <= 42", f"({name()} if {name()} else {name()})", f"(lambda q: {name()})"])
     if r < 0.43:
         return "(" + rng.choice([" and ", " or "]).join(f"({g()})" for _ in range(rng.choice([2, 3]))) + ")"
-    if r < 0.63:
+    if r < 0.55:
         return "[" + ", ".join(g() for _ in range(rng.choice([0, 1, 2, 3, 4]))) + "]"
+    if r < 0.63:
+        ents = [f"**{name()}" if rng.random() < 0.2 else f"{g()}: {g()}" for _ in range(rng.choice([0, 1, 2, 3]))]
+        return "{" + ", ".join(ents) + "}"
     if r < 0.75:
         return "(" + ", ".join(g() for _ in range(rng.choice([0, 2, 3]))) + ")"
     args = [g() for _ in range(rng.choice([0, 1, 2]))] + [f"{rng.choice(['k', 'key'])}={g()}" for _ in range(rng.choice([0, 0, 1, 2]))]
@@ -716,7 +791,7 @@ def layout_bounds(ctx: Ctx) -> Tuple[int, int, Tuple[int, ...]]:
 
 def layout_sources(ctx: Ctx, rng: random.Random) -> List[str]:
     sources = list(LAYOUT_SOURCES) + list(LAYOUT_LONG_SOURCES)
-    want = 30 if ctx.quick else 74
+    want = 36 if ctx.quick else 80
     while len(sources) < want:
         src = gen_layout_source(rng, rng.choice([2, 3]))
         if len(src) <= 70 and src not in sources:
@@ -1007,6 +1082,7 @@ def run(ctx: Ctx) -> int:
     for f in tree_files:
         pre.submit("Expr", expr_cfg("file", ALL_CMP, open_ids, fixed_ids), env={"CASE_FILE": str(f)}, **ex)
     pre.submit("Expr", expr_cfg("ann", ann_cmp, open_ids, fixed_ids, ann_ops), **ex)
+    pre.submit("Expr", expr_cfg("aug", d3_cmp, open_ids, fixed_ids), **ex)
     pre.submit("ExprStr", strings_cfg(ctx, open_ids, fixed_ids), **ex)
     maxll, maxml, extra_ll = layout_bounds(ctx)
     pre.submit("ExprLayout", layout_cfg("enum", maxll, maxml, fixed_ids, extra_ll),
@@ -1049,6 +1125,18 @@ def run(ctx: Ctx) -> int:
     for rec, real in zip(ann, shown_ann):
         judge_tree(ctx, rec, "annotation", stats, real=real)
     ctx.extra["annotations_with_quoted_part"] = len(ann)
+    # ---- values built by two statements (V = form; V op= rhs), through the real builder, read back from the page
+    aug = tlc_cases("aug", d3_cmp)
+    lines, names = [], []
+    for i, rec in enumerate(aug):
+        first, rhs = (huge("".join(x)) for x in rec["parts"])
+        lines += [f"A{i}: TypeAlias = {first}", f"A{i} {AUG[rec['t']['op']]} {rhs}"]
+        names.append(f"A{i}")
+    kinds: Dict[str, int] = {}
+    for rec, (kind, text) in zip(aug, constant_pages(lines, names)):
+        kinds[kind] = kinds.get(kind, 0) + 1
+        judge_tree(ctx, rec, "augmented", stats, real=(text, True))
+    ctx.extra["values_built_by_augmented_assignment"] = {"cases": len(aug), "kinds": kinds}
     # ---- string / bytes literals (ExprStr.tla)
     run_strings(ctx, open_ids, fixed_ids, stats)
     # ---- line length / line count: wrapping, truncation, is_complete (ExprLayout.tla)
@@ -1089,7 +1177,8 @@ def replay(ctx: Ctx, path: str) -> int:
         bad = not ok
     elif w.get("invariant") == "LiteralValue" and w.get("origin") == "literal-html":
         value = ast.literal_eval(w["input"])
-        shown = shown_html(ast.Constant(value), w["linebreakok"])
+        shown = (constant_pages([f"S0 = {value!r}"], ["S0"])[0][1] if w["linebreakok"]
+                 else shown_html(ast.Constant(value), False))
         got = literal_value(shown)
         bad = not (type(got) is type(value) and got == value)
         print(f"replay: value {w['input']} in the rendered HTML {shown!r} ->", "still violated" if bad else "holds now")
